@@ -599,6 +599,27 @@ def _native_strings(tier="quick", seed=0):
                 if tb2.text_frame.text != want_frame or len(txBody.p_lst) != s.count("\n") + 1:
                     bad = bad or ("frame (two paragraphs, field).text = %r reads %r in %d paragraphs, documented %r" % (s, tb2.text_frame.text, len(txBody.p_lst), want_frame))
             tb2._element.getparent().remove(tb2._element)
+    # prior states the schema allows although add_table never produces them: a cell without a:txBody, a body whose only paragraph
+    # is empty with properties, a body of several empty paragraphs
+    for s in ["", "x", "two\nparas", "a\vb", " "]:
+        evals += 1
+        t2 = slide.shapes.add_table(1, 2, Emu(0), Emu(0), Emu(100), Emu(100)).table
+        tc = t2.cell(0, 0)._tc
+        if tc.txBody is not None:
+            tc.remove(tc.txBody)
+        c0 = t2.cell(0, 0)
+        c0.text = s
+        want_frame = "\n".join("\v".join(esc(x) for x in re.split("\v", para)) for para in s.split("\n"))
+        got = t2.cell(0, 0).text
+        if got != want_frame:
+            bad = bad or "cell without a:txBody: cell.text = %r reads %r, documented %r" % (s, got, want_frame)
+        tf3 = t2.cell(0, 1).text_frame
+        body3 = t2.cell(0, 1)._tc.txBody
+        body3.append(parse_xml('<a:p %s><a:pPr algn="ctr"/><a:endParaRPr lang="en-US"/></a:p>' % nsdecls("a")))
+        body3.append(parse_xml('<a:p %s/>' % nsdecls("a")))
+        t2.cell(0, 1).text = s
+        if t2.cell(0, 1).text != want_frame or len(body3.p_lst) != s.count("\n") + 1:
+            bad = bad or "cell with three empty paragraphs: cell.text = %r reads %r in %d paragraphs, documented %r" % (s, t2.cell(0, 1).text, len(body3.p_lst), want_frame)
     ob1 = {"name": "C04.native.four_levels", "base": "C04.native.four_levels", "kind": "bounded", "status": "refuted" if bad else "discharged", "backend": "native", "time": 0, "path": 0}
     if bad:
         ob1["replay"] = {"confirmed": True, "witness_class": "text-roundtrip", "detail": bad}
